@@ -23,7 +23,7 @@ ASSUMPTIONS = [
     'the number of *_value_changed notifications is not asserted (not stated); notify is only exercised',
     'evaluated at quiescence of a manager stepped by tick() from the checking thread',
 ]
-REQUIRED = ['handler_of_an_exception_event_raised', 'falsy_result', 'handler_resumed_from_call', 'base_exception_raised', 'raise_plus_generator', 'generator_raises_at_step', 'multi_value_list', 'single_value_scalar', 'success_requested',
+REQUIRED = ['awaited_event_due_its_own_success_feedback', 'awaited_event_due_its_own_failure_feedback', 'handler_of_an_exception_event_raised', 'falsy_result', 'handler_resumed_from_call', 'base_exception_raised', 'raise_plus_generator', 'generator_raises_at_step', 'multi_value_list', 'single_value_scalar', 'success_requested',
             'failure_requested', 'notify_requested', 'success_channels_override', 'child_event_from_handler', 'two_raises_one_event',
             'same_event_object_fired_again', 'event_object_fired_again_after_a_handler_raised', 'handler_returned_nested_value',
             'nested_value_next_to_a_raising_handler', 'handler_call_timed_out', 'handler_called_again_right_after_timeout']
@@ -77,6 +77,19 @@ for _k in range(2, 13):
     TIMEOUT_SHAPES['GT%d' % _k] = (True, [['call', {'name': 'slow'}, {'timeout': _k}], ['yield', 'a']])
     TIMEOUT_SHAPES['GW%d' % _k] = (True, [['wait', {'name': 'slow'}, {'timeout': _k}], ['yield', 'b']])
 ALLF = {'success': True, 'failure': True, 'notify': True}
+# handlers suspended in call()/wait() on an event that ITSELF asks for feedback ('k' has one plain handler, every handler of 'kx' raises,
+# 'kg' has a generator handler and a plain one): somebody waiting for an event changes nothing about the feedback that event is due.
+# (kept out of SHAPES: the exhaustive products are over SHAPES only)
+AWAIT_SHAPES = {
+    'GCs': (True, [['call', {'name': 'k', 'flags': ALLF}], ['yield', 'a']]),
+    'GCs1': (True, [['call', {'name': 'k', 'flags': {'success': True}}], ['yield', None]]),
+    'GWs': (True, [['wait', {'name': 'k', 'flags': ALLF}], ['yield', None]]),
+    'GWNs': (True, [['waitname', {'name': 'k', 'flags': {'success': True}}], ['yield', 'b']]),
+    'GCg': (True, [['call', {'name': 'kg', 'flags': ALLF}], ['yield', 'a']]),
+    'GWg': (True, [['wait', {'name': 'kg', 'flags': ALLF}], ['yield', 'a']]),
+    'GCx': (True, [['call', {'name': 'kx', 'flags': ALLF}], ['yield', 'a']]),
+    'GWx': (True, [['wait', {'name': 'kx', 'flags': ALLF}], ['yield', None]]),
+}
 
 
 def run_case(case):
@@ -84,6 +97,10 @@ def run_case(case):
     hs = case['handlers']
     if not any(h['name'] == 'k' for h in hs):
         hs = case['handlers'] = hs + [dict(K_HANDLER)]
+    for extra_h in (KX_HANDLER, KG_HANDLER, KG2_HANDLER):
+        if any(a[0] in ('call', 'wait', 'waitname') and a[1].get('name') == extra_h['name'] for h in hs for a in h['body']) and \
+                not any(h['hid'] == extra_h['hid'] for h in hs):
+            hs = case['handlers'] = hs + [copy.deepcopy(extra_h)]
     if not any(h['name'] == 'n' for h in hs):
         hs = case['handlers'] = hs + [dict(N_HANDLER)]
     if case.get('under_run') and not any(h['name'] == 'slow' for h in hs):
@@ -234,12 +251,20 @@ def evaluate(case, w, problems, canary, norm):
             marks.add('success_channels_override')
         if info['parent'] is not None:
             marks.add('child_event_from_handler')
+        if info.get('via') in ('call', 'wait', 'waitname') and info['dispatched']:
+            if flags.get('success') and not raises:
+                marks.add('awaited_event_due_its_own_success_feedback')
+            if flags.get('failure') and raises:
+                marks.add('awaited_event_due_its_own_failure_feedback')
     return problems, {'marks': marks, 'counts': counts, 'nontrivial': nontrivial}, w
 
 
 # ------------------------------------------------------------------------------------------------
 K_HANDLER = {'hid': 900, 'name': 'k', 'prio': 0, 'gen': False, 'body': [['ret', 'k']], 'shape': 'R'}
 SLOW_HANDLER = {'hid': 902, 'name': 'slow', 'prio': 0, 'gen': True, 'body': [['yield', None]] * 6 + [['yield', 'slow']], 'shape': 'G'}
+KX_HANDLER = {'hid': 903, 'name': 'kx', 'prio': 0, 'gen': False, 'body': [['raise']], 'shape': 'X'}
+KG_HANDLER = {'hid': 904, 'name': 'kg', 'prio': 1, 'gen': True, 'body': [['yield', None], ['yield', 'kg']], 'shape': 'G2nv'}
+KG2_HANDLER = {'hid': 905, 'name': 'kg', 'prio': 0, 'gen': False, 'body': [['ret', 'kg2']], 'shape': 'R'}
 N_HANDLER = {'hid': 901, 'name': 'n', 'prio': 0, 'gen': False, 'body': [['ret', 'n']], 'shape': 'R'}
 
 
@@ -247,7 +272,7 @@ def mk_handlers(name, shapes, hid0=1, extra=None):
     hs = []
     n = len(shapes)
     for i, sh in enumerate(shapes):
-        gen, body = SHAPES[sh] if sh in SHAPES else TIMEOUT_SHAPES[sh]
+        gen, body = SHAPES[sh] if sh in SHAPES else AWAIT_SHAPES[sh] if sh in AWAIT_SHAPES else TIMEOUT_SHAPES[sh]
         body = [list(a) for a in body]
         if extra and i in extra:
             body = extra[i] + body
@@ -270,6 +295,12 @@ def corpus():
     for shapes in (['GTy'], ['GTC'], ['GTW'], ['GTCT'], ['GTX'], ['GTC', 'R'], ['G2vv', 'GTC'], ['GTC', 'GX1'], ['GTW', 'GTC'], ['X', 'GTC'], ['GTC', 'RV']):
         for fl in (ALLF, {'success': True}):
             cs.append({'handlers': mk_handlers('e', shapes), 'fires': [{'name': 'e', 'flags': fl}], 'under_run': True})
+    # awaited events that ask for feedback themselves (fired by call(), waited for by object and by name; handlers plain / generator / raising)
+    for sh in sorted(AWAIT_SHAPES):
+        for shapes in ([sh], [sh, 'R'], ['X', sh], [sh, sh]):
+            cs.append({'handlers': mk_handlers('e', shapes), 'fires': [{'name': 'e', 'flags': ALLF}]})
+        cs.append({'handlers': mk_handlers('e', [sh, 'G1v']), 'fires': [{'name': 'e', 'flags': {'success': True}}], 'under_run': True})
+        cs.append({'handlers': mk_handlers('e', [sh]), 'fires': [{'name': 'e', 'flags': ALLF}], 'mk': 'attr'})
     # the application's own handlers of `exception` events - which may fail themselves: an `exception` event is an event like any other
     EH = [{'hid': 90, 'name': 'exception', 'prio': 10, 'gen': False, 'body': [['raise_first_level']], 'shape': 'EX1'},
           {'hid': 91, 'name': 'exception', 'prio': 5, 'gen': False, 'body': [['ret', 'noted']], 'shape': 'R'}]
@@ -313,7 +344,7 @@ def gen_case(rng):
     handlers = []
     hid = 1
     for nm in names:
-        shapes = [rng.choice(sorted(SHAPES)) for _ in range(rng.randint(1, 5))]
+        shapes = [rng.choice(sorted(SHAPES)) if rng.random() < 0.88 else rng.choice(sorted(AWAIT_SHAPES)) for _ in range(rng.randint(1, 5))]
         extra = {}
         for i in range(len(shapes)):
             if depth[nm] < 3 and rng.random() < 0.35:
